@@ -92,6 +92,24 @@ theorem C08_list_outputs_prints_generator_paths (a : Args) (es : List Entry) (tr
   simp only [listOutputsWith, ht, hs, listOf]
   rw [typesOut_ok_paths a true tree lt ht]
 
+/-- Histories: whatever listing / generating calls were made before on the same objects, a dry-run listing names
+exactly the files a later (or earlier) real run writes — the i-th answer of a history is the answer of a first call,
+hence T1 holds between any two positions of any history.  (The implementation side — no one-shot state in the
+generator objects — is the in-process API stream of the harness.) -/
+theorem C08_history_independent (pre post : List Mode) (m : Mode) (a : Args) (es : List Entry) :
+    (runHistory (pre ++ m :: post) a es)[pre.length]? = some (run m a es) := by
+  simp [runHistory]
+
+theorem C08_history_listing_eq_generated (ms : List Mode) (a : Args) (es : List Entry) (i j : Nat)
+    (hi : ms[i]? = some .listOutputs) (hj : ms[j]? = some .generate)
+    (hgen : ∀ r, (runHistory ms a es)[j]? = some r → r.err = none) :
+    ∃ rl rg, (runHistory ms a es)[i]? = some rl ∧ (runHistory ms a es)[j]? = some rg ∧ rl.err = none ∧
+      ∀ p, p ∈ rl.outputs ↔ p ∈ written rg.ops := by
+  have hl : (runHistory ms a es)[i]? = some (run .listOutputs a es) := by simp [runHistory, hi]
+  have hg : (runHistory ms a es)[j]? = some (run .generate a es) := by simp [runHistory, hj]
+  obtain ⟨h1, h2⟩ := C08_list_outputs_eq_generated a es (hgen _ hg)
+  exact ⟨_, _, hl, hg, h1, h2⟩
+
 /-! ## T2 — listing and dry-run modes touch nothing -/
 
 /-- T2: the operation log of `--list-outputs`, `--list-inputs` and `--dry-run` is empty — for every argument
